@@ -715,6 +715,10 @@ class Account:
     def __init__(self, balance: str, owner: str = "nobody", *tags: int):
         self.args = (balance, owner, tags)
 
+class ChildOfAccount(Account):
+    # inherits the annotated __init__ (defines none of its own)
+    note = "child"
+
 class Caller:
     limit: decimal.Decimal
     def __call__(self, limit: str, n: int = 0):
@@ -767,6 +771,17 @@ def special_classes(res):
             got = repr(out.val) if out.ok else f"raises {out.excname}: {str(out.exc)[:80]}"
             res.violation("C10/special/class-as-callable/Registered(__new__-catch-all)/" + ("wrong-conversion" if out.ok else "raises:" + out.excname),
                           f"wrap(Registered)('80', 'a', 'b', ratio='1.5'): __init__(port: int, *tags: bytes, ratio: Decimal) received {got}, expected {exp!r}", {"special": "classes"})
+        res.programs += 1
+        res.evals += 1
+        res.hit("special:classes:wrap:ChildOfAccount")
+        w = gcall(typelib.binding.wrap, m.ChildOfAccount)
+        out = gcall(lambda: w.val(15, 7, "3").args) if w.ok else w
+        exp = ("15", "7", (3,))
+        res.outcomes.add(h64("classes", "wrap", "ChildOfAccount", out.ok, repr(out.val) if out.ok else out.excname))
+        if not (out.ok and fsame(out.val, exp)):
+            got = repr(out.val) if out.ok else f"raises {out.excname}: {str(out.exc)[:80]}"
+            res.violation("C10/special/class-as-callable/ChildOfAccount(inherited-__init__)/" + ("wrong-conversion" if out.ok else "raises:" + out.excname),
+                          f"wrap(ChildOfAccount)(15, 7, '3'): the inherited __init__(balance: str, owner: str, *tags: int) received {got}, expected {exp!r}", {"special": "classes"})
         for api in ("bind", "wrap"):
             for name, target, (a, k), view, exp in table:
                 if api == "wrap" and name in ("Account", "Price", "InheritedPrice"):
